@@ -1,0 +1,32 @@
+//go:build verif
+
+// Package verifhook provides verification-only yield points. It is compiled in
+// only with the build tag "verif"; without the tag At is an empty function.
+package verifhook
+
+import "sync/atomic"
+
+// Func is the signature of an installed hook: point names the yield point, id
+// identifies the object (session id, transport name, timer) reaching it.
+type Func func(point string, id any)
+
+var hook atomic.Pointer[Func]
+
+// Enabled reports whether hooks are compiled in.
+const Enabled = true
+
+// Set installs (or, with nil, removes) the hook function.
+func Set(f Func) {
+	if f == nil {
+		hook.Store(nil)
+		return
+	}
+	hook.Store(&f)
+}
+
+// At is called at a yield point. With no hook installed it does nothing.
+func At(point string, id any) {
+	if f := hook.Load(); f != nil {
+		(*f)(point, id)
+	}
+}
